@@ -47,8 +47,12 @@ func vModelDir() []os.FileInfo {
 		if vModelDirStatT {
 			base.sys = &syscall.Stat_t{Uid: uint32(100 + i), Gid: uint32(200 + i)}
 			ents = append(ents, &base)
-		} else {
+		} else if i%2 == 1 {
 			ents = append(ents, &vFIUidGid{vFI: base, uid: uint32(100 + i), gid: uint32(200 + i)})
+		} else {
+			// every other entry carries a (short) extended attribute, so that one can
+			// be the last of a batch (added after seeded change C16-e)
+			ents = append(ents, &vFIExt{vFIUidGid: vFIUidGid{vFI: base, uid: uint32(100 + i), gid: uint32(200 + i)}, ext: []StatExtended{{ExtType: "k", ExtData: string([]byte{byte('0' + i)})}}})
 		}
 	}
 	return ents
@@ -101,6 +105,13 @@ func vCheckListing(got []os.FileInfo, err error, ents []os.FileInfo) {
 		st, ok := got[i].Sys().(*FileStat)
 		uid, gid := vOwnerOf(want[i])
 		vAssert(ok && st.UID == uid && st.GID == gid, "owner as reported by the server")
+		if x, isExt := want[i].(FileInfoExtendedData); isExt && ok {
+			we := x.Extended()
+			vAssert(len(st.Extended) == len(we), "extended attributes as reported by the server")
+			for j := 0; j < len(we) && j < len(st.Extended); j++ {
+				vAssert(st.Extended[j].ExtType == we[j].ExtType && st.Extended[j].ExtData == we[j].ExtData, "extended attributes as reported by the server")
+			}
+		}
 	}
 	vAssert(vLoopRequests <= len(ents)+4, "terminates within size+4 requests (opendir, readdirs, EOF, close)")
 	vEmit("n", len(got))
